@@ -523,8 +523,11 @@ class Mapper:
             return "%sx%d" % (neg, self.extra_names[s])
         m = re.match(r"problog_cv_(.*)_cb_(\d+)(\(.*\))?$", s)
         if m:
-            base = m.group(1) + (m.group(3) or "")
             k = int(m.group(2))
+            if m.group(1) == "\\+" and m.group(3):
+                # renamed negated name: problog_cv_\+_cb_k(t)
+                return "%sn%d" % (neg, self._n(m.group(3)[1:-1]) + 500000 + 1000 * (k + 1))
+            base = m.group(1) + (m.group(3) or "")
             return "%sn%d" % (neg, self._n(base) + 1000 * (k + 1))
         return "%sn%d" % (neg, self._n(s))
 
